@@ -5,9 +5,10 @@ Two comparisons on generated path lists (duplicates, permutations, names sharing
 upper/lower case, `%`, `_`, a non-ASCII letter, a supplementary-plane character):
  1. model: `normPaths` of the Lean kernel model (driver request `c02 norm`) equals Python's
     `sorted(set(paths))` (code point order);
- 2. implementation: the real `Workflow.define_step`, `declare_static_files` and `amend_step`,
-    called on equal fresh workflows once with the raw list (permuted, with duplicates) and once
-    with the normalised list, leave the same canonical database dump and return the same value.
+ 2. implementation (`oracle`, run by the search of C02, no model involved): the real
+    `Workflow.define_step`, `declare_static_files` and `amend_step`, called on equal fresh
+    workflows once with the raw list (permuted, with duplicates) and once with the normalised
+    list, must leave the same canonical database dump and return the same value.
 """
 
 from __future__ import annotations
